@@ -54,6 +54,7 @@ def normalise(sc):
         r.setdefault("routes", [])
         r.setdefault("rule", "any")
         r.setdefault("choice", "random")
+        r.setdefault("same", 0)      # k > 0: this class uses the very same routing object as class k
         for nr in r["routers"]:
             nr.setdefault("dests", [])
             nr.setdefault("probs", [])
@@ -311,7 +312,11 @@ def build(sc, ctx):
         kw["server_priority_functions"] = [SPF[nd["spf"]] for nd in sc["nodes"]]
     if any(nd["kind"] == "ps" for nd in sc["nodes"]):
         kw["ps_thresholds"] = [Fraction(nd["psR"]) for nd in sc["nodes"]]
-    kw["routing"] = {names[k]: make_router(ciw, sc, ctx, sc["route"][k], k) for k in korder}
+    robj = {}
+    for k in range(K):
+        same = sc["route"][k].get("same", 0)
+        robj[k] = robj[same - 1] if same else make_router(ciw, sc, ctx, sc["route"][k], k)
+    kw["routing"] = {names[k]: robj[k] for k in korder}
     return ciw.create_network(**kw), names
 
 
